@@ -27,6 +27,8 @@ def schema_events(wd, quick, seed):
     evs.append({"ev": "artifact_file", "case": "legacy-artifact", "src": "static", "in": {"path": "/repo/data/random_lp_instance.ommx"}})
     return evs
 
+GI = lambda name, cfgname: G(name, f"Gen_Inst_{cfgname}.cfg", module="Gen_Inst.tla")
+
 PLAN = {
     "C01": {
         "mc": [MC_POLY],
@@ -36,9 +38,10 @@ PLAN = {
     },
     "C02": {
         "mc": [MC_POLY],
-        "gen": [G("arith", "Gen_Fn_Arith.cfg"), G("arithdeep", "Gen_Fn_ArithDeep.cfg", tier="thorough"), G("fninfo", "Gen_Fn_FnInfo.cfg"), G("fmt", "Gen_Fn_Fmt.cfg"), G("ctor", "Gen_Fn_Ctor.cfg")],
+        "gen": [G("arith", "Gen_Fn_Arith.cfg"), G("arithdeep", "Gen_Fn_ArithDeep.cfg", tier="thorough"), G("fninfo", "Gen_Fn_FnInfo.cfg"),
+                G("fmt", "Gen_Fn_Fmt.cfg"), G("ctor", "Gen_Fn_Ctor.cfg")],
         "drive": [D("arith", 3000, 300000)],
-        "exhaustive_note": "every (op, lhs kind, rhs kind) the API defines (107 + 7 negations) x a thin operand family per kind",
+        "exhaustive_note": "every (op, lhs kind, rhs kind) the API defines (107 + 7 negations) x a thin operand family per kind (incl. quadratics listing a pair in both triangles, decision variables of every kind)",
     },
     "C03": {
         "mc": [MC_POLY, MC_INST],
@@ -50,8 +53,14 @@ PLAN = {
         "gen": [G("subst", "Gen_Fn_Subst.cfg")],
         "drive": [D("subst_fn", 2000, 100000), D("inst_subst", 800, 40000), D("deps_order", 300, 5000), D("chain_encode", 300, 10000)],
     },
-    "C05": {"mc": [MC_INST], "gen": [G("evaluate", "Gen_Inst_Evaluate.cfg", module="Gen_Inst.tla")], "drive": [D("evaluate", 2000, 100000)]},
-    "C06": {"mc": [MC_INST], "gen": [G("samples", "Gen_Inst_Samples.cfg", module="Gen_Inst.tla")], "drive": [D("samples", 1000, 50000)]},
+    "C05": {
+        "mc": [MC_INST], "gen": [GI("evaluate", "Evaluate")], "drive": [D("evaluate", 2000, 100000)],
+        "exhaustive_note": "tolerance grid (67u/68u around 1e-6, 6u/7u around 1e-7, u = 2^-26) and the exact floats +-1e-6/+-1e-7; every kind x bound shape of an irrelevant variable; explicit binary bounds; chained dependents in both map orders",
+    },
+    "C06": {
+        "mc": [MC_INST], "gen": [GI("samples", "Samples")], "drive": [D("samples", 1000, 50000)],
+        "exhaustive_note": "all assignments of 3 states (one omitting an irrelevant variable) to <= 3 sample ids, grouped or in separate entries, with and without a fixed variable; samples exactly at the tolerance",
+    },
     "C07": {
         "schema": True, "reencode": True,
         "mc": [M("wire", "MC_Wire.tla", "MC_Wire.cfg")],
@@ -65,24 +74,51 @@ PLAN = {
         "mc": [M("validate", "MC_Validate.tla", "MC_Validate.cfg")],
         "gen": [G("faults", "Gen_Validate.cfg", module="Gen_Validate.tla")],
         "drive": [D("validate", 500, 20000)],
-        "exhaustive_note": "every single fault (quick) / every ordered pair of faults (thorough) of two base instances: duplicate ids (vars; constraints within and across lists), undefined ids at each position, each required field unset, each invalid bound shape, repeated ids in hints",
+        "exhaustive_note": "every single fault (quick) / every ordered pair of faults (thorough) of two base instances: duplicate ids (vars; constraints within and across lists), undefined ids at each position and in each function shape, each required field unset, each bound shape, repeated ids in hints",
     },
-    "C09": {"mc": [MC_INST], "gen": [G("penalty", "Gen_Inst_Penalty.cfg", module="Gen_Inst.tla")], "drive": [D("penalty", 1000, 50000)]},
-    "C10": {"mc": [MC_INST], "gen": [G("penalty", "Gen_Inst_Penalty.cfg", module="Gen_Inst.tla")], "drive": [D("with_parameters", 1500, 60000)]},
-    "C11": {"mc": [MC_POLY], "gen": [G("qubo", "Gen_Inst_Qubo.cfg", module="Gen_Inst.tla")], "drive": [D("pubo", 1000, 40000)]},
-    "C12": {"mc": [M("logencode", "MC_LogEncode.tla", "MC_LogEncode.cfg")], "gen": [G("logencode", "Gen_Inst_LogEncode.cfg", module="Gen_Inst.tla")], "drive": [D("log_encode", 1000, 50000)]},
-    "C13": {"mc": [M("slack", "MC_Slack.tla", "MC_Slack.cfg", workers=12)], "gen": [G("slack", "Gen_Inst_Slack.cfg", module="Gen_Inst.tla")], "drive": [D("slack", 1000, 40000)]},
-    "C14": {"mc": [MC_INST], "gen": [G("histories", "Gen_Inst_Histories.cfg", module="Gen_Inst.tla")], "drive": [D("relax_restore", 600, 30000)]},
-    "C15": {"mc": [MC_INST, {"name": "best", "module": "MC_Best.tla", "cfg_quick": "MC_Best.cfg"}], "gen": [G("best", "Gen_Inst_Best.cfg", module="Gen_Inst.tla")], "drive": [D("as_min", 500, 20000), D("best", 1500, 60000)]},
+    "C09": {
+        "mc": [MC_INST], "gen": [GI("penalty", "Penalty")], "drive": [D("penalty", 1000, 50000)],
+        "exhaustive_note": "2 senses x 3 constraint lists (empty / one / three in non-ascending id order, one without function) x {no, one} previously removed constraint, an unused variable, both methods",
+    },
+    "C10": {"mc": [MC_INST], "gen": [GI("penalty", "Penalty")], "drive": [D("with_parameters", 1500, 60000)]},
+    "C11": {
+        "mc": [MC_POLY], "gen": [GI("qubo", "Qubo")], "drive": [D("pubo", 1000, 40000)],
+        "exhaustive_note": "all small binary objectives of the family BinObjs (every representation, powers, three distinct variables) x {pubo, qubo} x {ok, maximise, constrained, non-binary}",
+    },
+    "C12": {
+        "mc": [M("logencode", "MC_LogEncode.tla", "MC_LogEncode.cfg")], "gen": [GI("logencode", "LogEncode")], "drive": [D("log_encode", 1000, 50000)],
+        "exhaustive_note": "every (l,u) in halves in [-8,8]; quarters and tenths with independent fractional parts; every width 1..600 (quick) / 4096 (thorough) at 3 offsets up to 2^20; every error condition",
+    },
+    "C13": {
+        "mc": [M("slack", "MC_Slack.tla", "MC_Slack.cfg", workers=12)], "gen": [GI("slack", "Slack")], "drive": [D("slack", 1000, 40000)],
+        "exhaustive_note": "every f of the family SlackF (linear and bilinear, coefficients {-2,-1,1,1/2,-1/3}) x 3x3 boxes x both conversions x 2 limits, every lattice point and slack value; each rejection condition",
+    },
+    "C14": {
+        "mc": [MC_INST], "gen": [GI("histories", "Histories")], "drive": [D("relax_restore", 600, 30000)],
+        "exhaustive_note": "all relax/restore histories of length <= 3 (quick) / 4 (thorough) over 8 operations (known, unknown, wrong-list ids, empty reason) on an instance with 3 constraints, each followed by an evaluation",
+    },
+    "C15": {
+        "mc": [MC_INST, {"name": "best", "module": "MC_Best.tla", "cfg_quick": "MC_Best.cfg"}], "gen": [GI("best", "Best")],
+        "drive": [D("as_min", 500, 20000), D("best", 1500, 60000)],
+        "exhaustive_note": "all sample sets over <= 3 ids with objectives {0,1}, every feasibility pattern, both senses, current and legacy layout, objectives stored per id or grouped by value, direct and through encode/decode",
+    },
+    "C16": {
+        "mc": [MC_INTERVAL],
+        "gen": [G("bound", "Gen_Fn_Bound.cfg"), G("contains", "Gen_Fn_Contains.cfg"), G("evalbound", "Gen_Fn_EvalBound.cfg"), G("content", "Gen_Fn_Content.cfg")],
+        "drive": [D("eval_bound", 2000, 100000), D("content_factor", 2000, 100000)],
+        "exhaustive_note": "all 43 valid intervals over {-inf,-3,-1,-1/2,0,1/2,1,2,+inf}: all pairs for + and x, exponents 0..6, 4 scalings",
+    },
     "C17": {
         "mc": [{"name": "mpsreader", "module": "MC_MpsReader.tla", "cfg_quick": "MC_MpsReader.cfg"}],
-
         "gen": [G("mps", "Gen_Mps.cfg", module="Gen_Mps.tla"),
                 G("mpsrand", "Gen_MpsRand.cfg", module="Gen_Mps.tla", models=("mps_models", 300, 20000))],
         "exhaustive_note": "20 bound scenarios x marker x 8 layouts; 3 row types x 3 RHS x 4 ranges x 3 objective RHS x 2 layouts; 5 sense forms x 8 layouts x 3 readers; 8 error classes x 8 layouts",
         "chunk": 1500,
     },
-    "C18": {"gen": [G("mpsrt", "Gen_Inst_MpsRoundtrip.cfg", module="Gen_Inst.tla")], "drive": [D("mps_roundtrip", 1500, 60000)]},
+    "C18": {
+        "gen": [GI("mpsrt", "MpsRoundtrip")], "drive": [D("mps_roundtrip", 1500, 60000)],
+        "exhaustive_note": "3 kinds x 14 bound shapes of a used variable x 2 senses x 2 kinds of a second variable, constant-only constraints, non-contiguous ids; nonlinear objective / constraint / both",
+    },
     "C19": {
         "mc": [{"name": "qplibreader", "module": "MC_QplibReader.tla", "cfg_quick": "MC_QplibReader.cfg"}],
         "gen": [G("qplib", "Gen_Qplib.cfg", module="Gen_Qplib.tla"),
@@ -96,39 +132,17 @@ PLAN = {
         "exhaustive_note": "every add_* sequence of length <= 3 (quick) / <= 4 (thorough) over 4 kinds x 2 payloads (default = empty bytes under every kind, small), and all kind sequences up to length 4 / 6",
         "chunk": 200, "unique_names": True,
     },
-    "C16": {
-        "mc": [MC_INTERVAL],
-        "gen": [G("bound", "Gen_Fn_Bound.cfg"), G("contains", "Gen_Fn_Contains.cfg"), G("evalbound", "Gen_Fn_EvalBound.cfg"), G("content", "Gen_Fn_Content.cfg")],
-        "drive": [D("eval_bound", 2000, 100000), D("content_factor", 2000, 100000)],
-        "exhaustive_note": "all 43 valid intervals over {-inf,-3,-1,-1/2,0,1/2,1,2,+inf}: all pairs for + and x, exponents 0..6, 4 scalings",
-    },
 }
 
+# which clauses of which events decide the property ("*": all clauses of that event kind).  Events of other kinds that
+# run along (fmt, ctor, samples_helpers, used_ids, ...) are judged as extensions of the specification: a rejection is
+# reported in the evidence and as a NOTE, never as a VIOLATION of the property.
 OWN = {
     "C01": {"eval_fn": "*"},
     "C02": {"arith": "*", "fn_info": "*"},
     "C03": {"partial_fn": "*", "inst_partial": "*", "commute": "*"},
-    "C04": {"subst_fn": "*", "inst_subst": "*", "deps_order": "*", "evaluate": ["state_dependent", "reject_iff", "objective", "constraints_bag", "state_domain"]},
-    "C05": {"mc": [MC_INST], "gen": [G("evaluate", "Gen_Inst_Evaluate.cfg", module="Gen_Inst.tla")], "drive": [D("evaluate", 2000, 100000)]},
-    "C06": {"mc": [MC_INST], "gen": [G("samples", "Gen_Inst_Samples.cfg", module="Gen_Inst.tla")], "drive": [D("samples", 1000, 50000)]},
-    "C08": {
-        "mc": [M("validate", "MC_Validate.tla", "MC_Validate.cfg")],
-        "gen": [G("faults", "Gen_Validate.cfg", module="Gen_Validate.tla")],
-        "drive": [D("validate", 500, 20000)],
-        "exhaustive_note": "every single fault (quick) / every ordered pair of faults (thorough) of two base instances: duplicate ids (vars; constraints within and across lists), undefined ids at each position, each required field unset, each invalid bound shape, repeated ids in hints",
-    },
-    "C09": {"mc": [MC_INST], "gen": [G("penalty", "Gen_Inst_Penalty.cfg", module="Gen_Inst.tla")], "drive": [D("penalty", 1000, 50000)]},
-    "C10": {"mc": [MC_INST], "gen": [G("penalty", "Gen_Inst_Penalty.cfg", module="Gen_Inst.tla")], "drive": [D("with_parameters", 1500, 60000)]},
-    "C11": {"mc": [MC_POLY], "gen": [G("qubo", "Gen_Inst_Qubo.cfg", module="Gen_Inst.tla")], "drive": [D("pubo", 1000, 40000)]},
-    "C12": {"mc": [M("logencode", "MC_LogEncode.tla", "MC_LogEncode.cfg")], "gen": [G("logencode", "Gen_Inst_LogEncode.cfg", module="Gen_Inst.tla")], "drive": [D("log_encode", 1000, 50000)]},
-    "C13": {"mc": [M("slack", "MC_Slack.tla", "MC_Slack.cfg", workers=12)], "gen": [G("slack", "Gen_Inst_Slack.cfg", module="Gen_Inst.tla")], "drive": [D("slack", 1000, 40000)]},
-    "C14": {"mc": [MC_INST], "gen": [G("histories", "Gen_Inst_Histories.cfg", module="Gen_Inst.tla")], "drive": [D("relax_restore", 600, 30000)]},
-    "C15": {"mc": [MC_INST, {"name": "best", "module": "MC_Best.tla", "cfg_quick": "MC_Best.cfg"}], "gen": [G("best", "Gen_Inst_Best.cfg", module="Gen_Inst.tla")], "drive": [D("as_min", 500, 20000), D("best", 1500, 60000)]},
-    "C17": {"mps_load": "*"},
-    "C18": {"mps_roundtrip": "*"},
-    "C19": {"qplib_load": "*"},
-    "C20": {"artifact": "*"},
-    "C16": {"bound_op": "*", "eval_bound": "*", "content_factor": "*"},
+    "C04": {"subst_fn": "*", "inst_subst": "*", "deps_order": "*",
+            "evaluate": ["state_dependent", "reject_iff", "objective", "constraints_bag", "state_domain"]},
     "C05": {"evaluate": "*"},
     "C06": {"evaluate_samples": "*"},
     "C07": {"schema_msg": "*", "schema_enum": "*", "wire_decode": "*", "wire_encode": "*", "wire_redecode": "*", "artifact_file": "*"},
@@ -140,4 +154,9 @@ OWN = {
     "C13": {"slack_convert": "*", "slack_add": "*"},
     "C14": {"relax": "*", "restore": "*"},
     "C15": {"as_min": "*", "best": "*"},
+    "C16": {"bound_op": "*", "eval_bound": "*", "content_factor": "*"},
+    "C17": {"mps_load": "*"},
+    "C18": {"mps_roundtrip": "*"},
+    "C19": {"qplib_load": "*"},
+    "C20": {"artifact": "*"},
 }
